@@ -213,6 +213,160 @@ func checkC18(w *World, r *Report) {
 		}
 	})
 
+	r.Rule("R18.7", "the three mandatory classifiers agree with the rule and with each other: checkMandatory, hasMandatoryChildren (absent non-presence container) and hasCaseMandatoryChildren (active case) treat a child as required iff Leaf: Mandatory(); List, LeafList: Limit().Min > 0; Container: not Presence() (looked through)", 12)
+	r.guard("R18.7", func() {
+		type spec struct {
+			accessor string // printed form with the switch variable spelled v
+			isBool   bool
+			want     func(bool, int64) bool
+			text     string
+		}
+		want := map[string]spec{
+			"Leaf":      {"v.Mandatory()", true, func(b bool, _ int64) bool { return b }, "Mandatory()"},
+			"List":      {"v.Limit().Min", false, func(_ bool, n int64) bool { return n > 0 }, "Limit().Min > 0"},
+			"LeafList":  {"v.Limit().Min", false, func(_ bool, n int64) bool { return n > 0 }, "Limit().Min > 0"},
+			"Container": {"v.Presence()", true, func(b bool, _ int64) bool { return !b }, "not Presence()"},
+		}
+		for _, fn := range []string{"checkMandatory", "hasMandatoryChildren", "hasCaseMandatoryChildren"} {
+			fd, _ := w.FuncDecl(w.Func("schema", fn))
+			got := map[string]ast.Expr{}
+			bounds := map[string]string{}
+			ast.Inspect(fd.Body, func(x ast.Node) bool {
+				ts, ok := x.(*ast.TypeSwitchStmt)
+				if !ok {
+					return true
+				}
+				// the bound variable of the switch
+				var bound string
+				if as, ok := ts.Assign.(*ast.AssignStmt); ok && len(as.Lhs) == 1 {
+					if id, ok := as.Lhs[0].(*ast.Ident); ok {
+						bound = id.Name
+					}
+				}
+				if bound == "" {
+					return true
+				}
+				for _, cl := range ts.Body.List {
+					cc := cl.(*ast.CaseClause)
+					if len(cc.List) != 1 || len(cc.Body) != 1 {
+						continue
+					}
+					tn := types.ExprString(cc.List[0])
+					var cond ast.Expr
+					switch st := cc.Body[0].(type) {
+					case *ast.IfStmt:
+						if st.Init == nil && st.Else == nil {
+							cond = st.Cond
+						}
+					case *ast.AssignStmt:
+						if len(st.Rhs) == 1 {
+							cond = st.Rhs[0]
+						}
+					}
+					if cond == nil {
+						continue
+					}
+					got[tn] = cond
+					bounds[tn] = bound
+				}
+				return true
+			})
+			for _, k := range []string{"Leaf", "List", "LeafList", "Container"} {
+				sp := want[k]
+				cond := got[k]
+				if cond == nil {
+					r.Fail("R18.7", fn+": "+k, fd.Pos(), fn+" has no arm that decides a "+k+" child: such a child is never reported missing here although the sibling classifiers report it")
+					continue
+				}
+				acc := strings.Replace(sp.accessor, "v.", bounds[k]+".", 1)
+				ok, bad := true, ""
+				func() {
+					defer func() {
+						if x := recover(); x != nil {
+							if u, isU := x.(undecided); isU {
+								ok, bad = false, u.why
+								return
+							}
+							panic(x)
+						}
+					}()
+					if sp.isBool {
+						for _, b := range []bool{false, true} {
+							env := &guardEnv{p: p, opaque: map[string]constant.Value{acc: constant.MakeBool(b)}}
+							if env.cond(cond) != sp.want(b, 0) {
+								ok, bad = false, fmt.Sprintf("%s = %v gives %v", sp.accessor, b, !sp.want(b, 0))
+							}
+						}
+					} else {
+						for _, n := range []int64{0, 1, 2, 7} {
+							env := &guardEnv{p: p, opaque: map[string]constant.Value{acc: constant.MakeInt64(n)}}
+							if env.cond(cond) != sp.want(false, n) {
+								ok, bad = false, fmt.Sprintf("%s = %d gives %v", sp.accessor, n, !sp.want(false, n))
+							}
+						}
+					}
+				}()
+				r.Check(ok, "R18.7", fn+": "+k, fd.Pos(), "required iff "+sp.text, fmt.Sprintf("%s decides a %s child by `%s` (%s); the rule and the sibling classifiers say: required iff %s", fn, k, types.ExprString(cond), bad, sp.text))
+			}
+		}
+	})
+
+	r.Rule("R18.8", "a default under a choice is added only when its case is the active or default one: in the decorator's loop over default children, the path on which IsActiveDefault answered false cannot reach the append of the created default", 1)
+	r.guard("R18.8", func() {
+		f := w.SSAFunc(w.Method("schema", "addDefaults", "yangDataChildren"))
+		if f == nil {
+			panic(undecided{"schema.addDefaults.yangDataChildren"})
+		}
+		isActive := w.SSAFunc(w.Func("schema", "IsActiveDefault"))
+		create := w.SSAFunc(w.Func("schema", "createDefault"))
+		var appendBlocks []*ssa.BasicBlock
+		var ifBlock *ssa.BasicBlock
+		for _, b := range f.Blocks {
+			for _, in := range b.Instrs {
+				if c, ok := in.(*ssa.Call); ok && c.Call.StaticCallee() == create {
+					appendBlocks = append(appendBlocks, b)
+				}
+			}
+			if iff, ok := b.Instrs[len(b.Instrs)-1].(*ssa.If); ok {
+				if c, ok := iff.Cond.(*ssa.Call); ok && c.Call.StaticCallee() == isActive {
+					ifBlock = b
+				}
+			}
+		}
+		if ifBlock == nil || len(appendBlocks) == 0 {
+			panic(undecided{"yangDataChildren: IsActiveDefault test or createDefault call not found"})
+		}
+		var header *ssa.BasicBlock
+		for _, l := range ssaLoops(f) {
+			if l.body()[ifBlock] {
+				if header == nil || header.Dominates(l.Header) {
+					header = l.Header // innermost loop containing the test
+				}
+			}
+		}
+		reach := func(from *ssa.BasicBlock) bool {
+			seen := map[*ssa.BasicBlock]bool{}
+			work := []*ssa.BasicBlock{from}
+			for len(work) > 0 {
+				b := work[len(work)-1]
+				work = work[:len(work)-1]
+				if seen[b] || b == header {
+					continue
+				}
+				seen[b] = true
+				for _, a := range appendBlocks {
+					if a == b {
+						return true
+					}
+				}
+				work = append(work, b.Succs...)
+			}
+			return false
+		}
+		r.Check(header != nil && !reach(ifBlock.Succs[1]) && reach(ifBlock.Succs[0]), "R18.8", "yangDataChildren: inactive choice defaults are skipped", ifBlock.Instrs[len(ifBlock.Instrs)-1].Pos(),
+			"IsActiveDefault false ⇒ next default child; true ⇒ createDefault", "the default of a choice member is created although IsActiveDefault answered false (or not created when it answered true): defaults of cases that are neither selected nor the default case appear in the decorated tree")
+	})
+
 	r.Rule("R18.3", "explicit data wins and decoration is idempotent in what it adds: a default is created only for a child name not already present; a leaf's HasDefault agrees with its Default (which suppresses a type default on a mandatory leaf)", 2)
 	r.guard("R18.3", func() {
 		fd, _ := w.FuncDecl(w.Method("schema", "addDefaults", "yangDataChildren"))
